@@ -163,7 +163,9 @@ func NewRelay(path string) (*Relay, error) {
 
 // Args is the OpenArgs override that makes the running binary act as the relay stand-in.
 // Whatever the transport appends (e.g. "-s netconf") lands behind "--" as captured argv.
-func (r *Relay) Args() []string { return []string{"ptypeer", "--mode", "relay", "--sock", r.Path, "--"} }
+func (r *Relay) Args() []string {
+	return []string{"ptypeer", "--mode", "relay", "--sock", r.Path, "--"}
+}
 
 // Accept waits for the stand-in; returns the connection and the stand-in's pid.
 func (r *Relay) Accept(d time.Duration) (net.Conn, int, error) {
